@@ -16,7 +16,7 @@ EXPLANATION = (
     "frozen instance with the reason a missing genotype cannot reach it; R2 one bucket per heterozygous call -- in get_phase_blocks every call is counted as a variant, "
     "and after the heterozygous counter every path performs exactly one of {add_unphased, blocks[id].add}; blocks split into phased (len>1) and singletons (len==1) "
     "without gap or overlap, and the DetailedStats fields are wired to those counts; R3 aggregation exhaustiveness -- every attribute initialised in PhasingStats.__init__ "
-    "is combined in __iadd__, and the per-chromosome stats reach the total on every path; R4 block list -- one line per key of blocks with leftmost+1, rightmost+1, len."
+    "is combined in __iadd__, and the per-chromosome stats reach the total on every path; R4 block list -- one line per key of blocks with leftmost+1, rightmost+1, len; R5 -- the worklist of get_nonoverlapping_blocks is re-sorted with its defining key after every insertion (necessary for splitting interleaved blocks into disjoint pieces)."
 )
 NOT_DECIDED = "The non-overlapping split of interleaved blocks and NG50 arithmetic (value-level)."
 ASSUMPTIONS = ["Genotype::is_homozygous() returns false for the missing genotype (src/genotype.cpp, checked by C12.R1's C++ probe)"]
@@ -236,10 +236,46 @@ def r4(ctx):
     ctx.ob(add.qual, "extent-min-max", okl and okr, add.loc(), "leftmost/rightmost are updated under variant < leftmost / rightmost < variant" if okl and okr else "PhasedBlock.add does not maintain leftmost as minimum and rightmost as maximum")
 
 
+def r5(ctx):
+    """Sorted-worklist discipline of get_nonoverlapping_blocks: whoever adds to the worklist re-sorts it
+    with the key/direction that defines it (the loop pops from the end and peeks at [-1])."""
+    fi = ctx.func(MOD + ".PhasingStats.get_nonoverlapping_blocks")
+    cfg = ctx.cfg(fi)
+    wl = "pos_sorted_blocks"
+    sorts = [(s, v) for s, v in util.assignments_to(fi.node, wl) if isinstance(v, ast.Call) and u(v.func) == "sorted"]
+    ctx.require(len(sorts) >= 1, "initial sort of the worklist not found")
+
+    def sig(call):
+        key = [u(k.value) for k in call.keywords if k.arg == "key"]
+        rev = [u(k.value) for k in call.keywords if k.arg == "reverse"]
+        return (key[0] if key else None, rev[0] if rev else "False")
+
+    first = sorts[0][1]
+    base = sig(first)
+    ok = base[0] is not None and "leftmost_variant.position" in base[0] and "chromosome" in base[0] and base[1] == "True"
+    ctx.ob(fi.qual, "worklist-sorted-by-chromosome-and-start", ok, fi.loc(sorts[0][0]), "the worklist is sorted by (chromosome, start) descending; pop() takes the leftmost block" if ok else "the initial sort key/direction of the worklist changed: %s" % (base,))
+    grows = [c for c in ctx.prog.calls_in(fi.node) if isinstance(c.func, ast.Attribute) and u(c.func.value) == wl and c.func.attr in ("append", "insert", "extend", "appendleft")]
+    for c in grows:
+        node = cfg.node_containing(c)
+        resorts = {cfg.node_of(s) for s, v in sorts[1:] if sig(v) == base and u(v.args[0]) == wl} | {cfg.node_containing(x) for x in ctx.prog.calls_in(fi.node) if u(x.func) == "%s.sort" % wl and sig(x) == base}
+        users = {n for n in cfg.g.nodes if n != node and cfg.ast(n) is not None and cfg.kind(n) in ("stmt", "test") and any(isinstance(x, ast.Call) and u(x.func) == "%s.pop" % wl or (isinstance(x, ast.Subscript) and u(x.value) == wl) for x in ast.walk(cfg.ast(n)))}
+        bad = None
+        for t in users:
+            p = cfg.find_path(node, t, avoid_nodes=resorts, start_after=True)
+            if p is not None:
+                bad = p
+        ctx.ob(fi.qual, "resorted-after:%s" % u(c)[:50], bad is None, fi.loc(c), "after %s the worklist is re-sorted with the defining key before it is popped or peeked again" % u(c)[:50] if bad is None else "%s adds a block without re-sorting the worklist by its defining key: overlapping phase sets can both be emitted whole" % u(c)[:50], cfg.describe_path(bad))
+    ctx.require(len(grows) >= 1, "no insertion into the worklist found")
+    filt = [(s, v) for s, v in util.assignments_to(fi.node, wl) if isinstance(v, ast.ListComp)]
+    ok = len(filt) == 1 and not filt[0][1].generators[0].ifs == [] and u(filt[0][1].generators[0].iter) == wl
+    ctx.ob(fi.qual, "filter-keeps-order", ok, fi.loc(), "singleton filtering keeps the sorted order (list comprehension over the sorted list)" if ok else "the singleton filter no longer preserves the sorted order")
+
+
 RULES = [
     ("C12.R1", "none-before-hom: missing genotype excluded before the hom/het split", r1),
     ("C12.R2", "one bucket per heterozygous call; phased/singleton partition; fields", r2),
     ("C12.R3", "aggregation exhaustiveness of PhasingStats.__iadd__ and total", r3),
     ("C12.R4", "block list: one line per phase set with 1-based extent and size", r4),
+    ("C12.R5", "non-overlapping split: the sorted worklist is re-sorted after insertions", r5),
 ]
-FLOORS = {"C12.R1": 4, "C12.R2": 14, "C12.R3": 10, "C12.R4": 8}
+FLOORS = {"C12.R1": 4, "C12.R2": 14, "C12.R3": 10, "C12.R4": 8, "C12.R5": 3}
